@@ -1201,9 +1201,28 @@ class Engine:
             fr.ip += 1
             return None
         if op == "fcmp" or op in ("fadd", "fsub", "fmul", "fdiv", "fneg", "fpext", "fptrunc", "sitofp", "uitofp", "fptosi", "fptoui"):
-            R[ins.dst] = simp(self.fp_op(st, ins, [self.val(fr, a) for a in ins.args]))
+            vals = [self.val(fr, a) for a in ins.args]
+            out = None
+            if op in ("fptosi", "fptoui") and not isinstance(vals[0], list):
+                # a floating value outside the range of the integer type (or NaN) has no defined conversion (C++ UB, LLVM poison)
+                x = self.to_fp(vals[0])
+                tb = self.bits_of(ins.ty)
+                srt = x.sort()
+                if op == "fptosi":
+                    ok = z3.And(z3.fpGEQ(x, z3.FPVal(-(2.0 ** (tb - 1)), srt)), z3.fpLT(x, z3.FPVal(2.0 ** (tb - 1), srt)))
+                else:
+                    ok = z3.And(z3.fpGT(x, z3.FPVal(-1.0, srt)), z3.fpLT(x, z3.FPVal(2.0 ** tb, srt)))
+                ok = z3.And(z3.Not(z3.fpIsNaN(x)), ok)
+                if self.feasible(st, z3.Not(ok)):
+                    s2 = st.copy()
+                    s2.pc.append(simp(z3.Not(ok)))
+                    s2.status = "ub"
+                    s2.info = "floating-point value outside the range of the integer type: " + ins.text
+                    st.pc.append(simp(ok))
+                    out = [s2, st]
+            R[ins.dst] = simp(self.fp_op(st, ins, vals))
             fr.ip += 1
-            return None
+            return out
         if op in ("zext", "sext", "trunc", "bitcast", "inttoptr", "ptrtoint", "addrspacecast"):
             v = self.val(fr, ins.args[0])
             if isinstance(v, list):
